@@ -38,6 +38,21 @@ ACTIVE_CTX: contextvars.ContextVar[int | None] = contextvars.ContextVar("verif_a
 ACTIVE_TASK: contextvars.ContextVar[int | None] = contextvars.ContextVar("verif_active_task", default=None)
 
 
+class CallableObject:
+    """"Any callable": an instance with __call__ instead of a function; its truth value may be False
+    (an empty registry / pool object that is also callable)."""
+
+    def __init__(self, fn: Any, falsy: bool) -> None:
+        self.fn = fn
+        self.falsy = falsy
+
+    def __call__(self, *args: Any, **kwargs: Any) -> Any:
+        return self.fn(*args, **kwargs)
+
+    def __bool__(self) -> bool:
+        return not self.falsy
+
+
 class FactoryError(Exception):
     pass
 
@@ -129,6 +144,8 @@ class Kernel:
         self.tdlog: list[str] = []
         self.tg: Any = None
         self.opidx = -1
+        self.pair_fns: dict[int, Any] = {}
+        self.inject_ctx: dict[int, int | None] = {}
         self.helper_results: list[tuple[int, int, list[str]]] = []   # (opidx, task, result) of finished async lookups
         self.gen_calls: list[tuple[int, int, int, int | None]] = []  # (opidx, ctx, fid, task) of factory calls
 
@@ -158,7 +175,7 @@ class Kernel:
                 return GenObj(c, fid, n)
 
             fn: Any = afactory
-            if spec.get("annot") or not spec["types"]:
+            if spec.get("annot") or not spec.get("types"):
                 pass        # the return annotation is read from the function itself
             elif fid % 3 == 1:
                 # an asynchronous factory that is not an `async def` function: a callable object
@@ -178,6 +195,8 @@ class Kernel:
                 return GenObj(c, fid, n)
 
             fn = sfactory
+            if spec.get("types") and not spec.get("annot") and fid % 4 >= 2:
+                fn = CallableObject(sfactory, falsy=fid % 4 == 3)
         if spec.get("annot"):
             ts = [TYPES[i] for i in spec["types"]]
             fn.__annotations__ = {"return": ts[0] if len(ts) == 1 else typing.Union[tuple(ts)]}
@@ -219,11 +238,15 @@ class Kernel:
             if spec["id"] % 2:
                 # a plain function returning a non-coroutine awaitable: must be awaited just the same
                 return lambda *args: Awaitable(acb(*args))
+            if spec["id"] % 6 == 4:
+                return CallableObject(acb, falsy=True)
             return acb
 
         def cb(*args: Any) -> None:
             run(args)
 
+        if spec["id"] % 5 in (3, 4):
+            return CallableObject(cb, falsy=spec["id"] % 5 == 4)
         return cb
 
     def body_op(self, ctx: Any, cid: int, b: dict[str, Any]) -> list[str]:
@@ -374,7 +397,12 @@ class Kernel:
                            "annot": d.get("form", "plain"), "ty": d["ty"]})
         # parameters without defaults must precede those with defaults among positional ones
         params.sort(key=lambda p: (p["kind"] != "normal", p["kind"] == "normal" and p["dflt"] != "none"))
-        fn = ac.inject(self.build_function(params, cmd["async"], cmd.get("future", True)))
+        if "pair" in cmd and cmd["pair"] in self.pair_fns:
+            fn = self.pair_fns[cmd["pair"]]     # the very same decorated function as the other call of the pair
+        else:
+            fn = ac.inject(self.build_function(params, cmd["async"], cmd.get("future", True)))
+            if "pair" in cmd:
+                self.pair_fns[cmd["pair"]] = fn
         sentinels = {o["name"]: object() for o in cmd["others"] if not o["has_default"] or o.get("pass")}
         args = [sentinels[p["name"]] for p in params if p["kind"] == "normal" and p["name"] in sentinels
                 and p["dflt"] == "none"]
@@ -385,6 +413,7 @@ class Kernel:
             c = self.ctx_ids.get(id(ac.current_context()))
         except ac.NoCurrentContext:
             pass
+        self.inject_ctx[cmd.get("i", -1)] = c
         tok = ACTIVE_CTX.set(c)
         tok2 = ACTIVE_TASK.set(cmd["t"])
         try:
@@ -426,7 +455,26 @@ class Kernel:
             w0 = self.workers[0] = Worker(self, 0)
             tg.start_soon(w0.main)
             await anyio.wait_all_tasks_blocked()
-            for i, op in enumerate(self.case["ops"]):
+            ops = self.case["ops"]
+            skip = False
+            for i, op in enumerate(ops):
+                if skip:
+                    skip = False
+                    continue
+                if op["op"] == "inject" and op.get("first") and i + 1 < len(ops) and ops[i + 1].get("pair") == op.get("pair"):
+                    # two calls of one injected function, made concurrently by two tasks in different contexts
+                    self.opidx = i
+                    n_ev = len(self.events)
+                    await self.dispatch(i, op)
+                    await self.dispatch(i + 1, ops[i + 1])
+                    await anyio.wait_all_tasks_blocked()
+                    evs = self.events[n_ev:]
+                    c1 = self.inject_ctx.get(i)
+                    mine = [e for e in evs if e.startswith(f"ev {c1} ")]
+                    out.append({"res": list(self.results.get(i, ["blocked"])), "ev": mine})
+                    out.append({"res": list(self.results.get(i + 1, ["blocked"])), "ev": [e for e in evs if e not in mine]})
+                    skip = True
+                    continue
                 self.opidx = i
                 n_ev = len(self.events)
                 n_help = len(self.helper_results)
@@ -480,6 +528,7 @@ class Worker:
         self.kern = kern
         self.t = t
         self.send_stream, self.recv_stream = anyio.create_memory_object_stream[dict](math.inf)
+        self.left_early: dict[int, list[str]] = {}
 
     def send(self, cmd: dict[str, Any]) -> None:
         self.send_stream.send_nowait(cmd)
@@ -500,6 +549,9 @@ class Worker:
                 self.send(cmd)
                 return {"i": -1, "end": {"k": "ret"}}
             if op == "exit":
+                if cmd["c"] in self.left_early:
+                    kern.results[cmd["i"]] = self.left_early.pop(cmd["c"])
+                    continue
                 if cid != cmd["c"]:
                     kern.results[cmd["i"]] = ["badOp"]
                     continue
@@ -527,13 +579,20 @@ class Worker:
         exitcmd: dict[str, Any] | None = None
         n0 = len(kern.tdlog)
         outcome = "?"
+        pre = bool(cmd.get("pre"))
         with anyio.CancelScope() as scope:
             # the way the block is left is observed here, inside the scope, before the scope absorbs
             # the cancellation it caused itself
+            if pre:
+                scope.cancel()      # the context is entered while a cancellation is already pending
             try:
                 async with ctx:
                     entered = True
                     kern.results[cmd["i"]] = ["ok"]
+                    if pre:
+                        exitcmd = {"i": -2, "c": cid, "end": {"k": "cancelled"}}
+                        await checkpoint()
+                        kern.tdlog.append("NOT-CANCELLED")
                     exitcmd = await self.frame(cid)
                     n0 = len(kern.tdlog)
                     assert exitcmd is not None
@@ -567,6 +626,9 @@ class Worker:
                                    f"{'grouped' if grouped else 'bare'} leafgroups={leaf_groups(e)}")
         if exitcmd is not None and exitcmd["i"] >= 0:
             kern.results[exitcmd["i"]] = kern.tdlog[n0:] + (["closed"] if ctx.closed else ["NOT-CLOSED"]) + [outcome]
+        elif exitcmd is not None and exitcmd["i"] == -2:
+            # left already (entered under a pending cancellation): reported when the exit operation arrives
+            self.left_early[cid] = kern.tdlog[n0:] + (["closed"] if ctx.closed else ["NOT-CLOSED"]) + [outcome]
 
     async def simple(self, cmd: dict[str, Any]) -> list[str] | None:
         from asphalt.core import Context, current_context
@@ -584,6 +646,26 @@ class Worker:
             kern.ctxs[cmd["c"]] = ctx
             kern.ctx_ids[id(ctx)] = cmd["c"]
             return ["ok"]
+        if op == "leak":
+            # a helper task creates a child of context `parent`, enters it and ends without ever leaving it;
+            # nobody keeps a reference to the child
+            import gc
+
+            parent = kern.ctxs[cmd["parent"]]
+            res: list[str] = []
+
+            async def helper(p: Any) -> None:
+                child = Context(p)
+                res.append("ok")
+                await child.__aenter__()
+                res.append("ok")
+
+            kern.tg.start_soon(helper, parent)
+            del parent
+            for _ in range(5):          # the helper has no real suspension point: it is done after a step or two
+                await checkpoint()
+            gc.collect()
+            return res
         if op == "current":
             return [kern.cur_name(current_context)]
         if op == "spawn":
